@@ -275,7 +275,7 @@ func streamWindowSeekable() {
 		"real jsonInputIter over a bytes.Reader (seekable: getContents re-reads in chunks) on the same corrupted streams and on single large documents; distinct = distinct implementation answers")
 	r := ctx.R.Fork(3)
 	var wl, wi, sl, si []string
-	nBase := ctx.N(7, 40)
+	nBase := ctx.N(9, 45)
 	perBase := ctx.N(30, 120)
 	for b := 0; b < nBase; b++ {
 		o := streamOpts{total: r.Range(18000, 52000), eol: common.Pick(r, []string{"\n", "\r\n"}), style: b % 4}
@@ -287,6 +287,12 @@ func streamWindowSeekable() {
 		}
 		base := genStream(r, o)
 		sizes := chunkScripts[b%len(chunkScripts)]
+		switch b % 9 {
+		case 7:
+			sizes = flushStops(refDecode(base).ends, 1) // a flush after every document
+		case 8:
+			sizes = flushStops(refDecode(base).ends, common.Pick(r, []int{2, 17, 301})) // after every k-th
+		}
 		evs, _, _, _ := runWindow(base, sizes, refDecode(base))
 		fixed, old := resets(evs)
 		ts := targetsAround(append(append([]bound(nil), fixed...), old...), len(base))
@@ -596,6 +602,12 @@ func shellReplay(inp []byte, tr transport, extra string) string {
 
 func checkJSONCase(orc *common.Oracle, c jsonCase, distinct map[string]bool) {
 	ref := refDecode(c.inp)
+	if c.tr.name == "script-flush" {
+		// a producer that flushes after every (k-th) document: each read ends exactly where a
+		// document ends, so the decoder has nothing read ahead when the value is returned
+		every := []int{1, 1, 2, 17, 301}[(len(c.inp)+c.t)%5]
+		c.tr = transport{"script", flushStops(ref.ends, every)}
+	}
 	if ref.kind != "syntax" && ref.kind != "eof" {
 		return
 	}
@@ -665,7 +677,7 @@ func oracleJSON() {
 		"`gojq empty` on a valid multi-document JSON stream with one corrupted byte (control char, }, ], \", comma, letter, raw LF/CR, truncation), through a regular file argument, a regular file as stdin, an os.Pipe and a non-seekable reader with scripted chunk sizes, with LF, CRLF and lone-CR terminators; expected = position of the byte encoding/json alone names (SyntaxError.Offset / end of input), located directly in the input bytes: line = 1 + terminators before it, excerpt ⊂ that line covering the byte and cut on rune boundaries, caret = display width of the excerpt before the byte's rune; distinct = distinct (transport, terminator, generator, fault position/64, size/4096)")
 	r := ctx.R.Fork(5)
 	distinct := map[string]bool{}
-	transports := []transport{{"file", nil}, {"stdin-file", nil}, {"os-pipe", nil}, {"script", nil}, {"script", []int{4096}}, {"script", []int{1}}, {"script", []int{1000, 7, 3000, 1}}}
+	transports := []transport{{"file", nil}, {"stdin-file", nil}, {"os-pipe", nil}, {"script", nil}, {"script", []int{4096}}, {"script", []int{1}}, {"script", []int{1000, 7, 3000, 1}}, {"script-flush", nil}}
 	// (0) the replays quoted for D8 and for the lone-CR line count
 	for _, eol := range []string{"\n", "\r\n", "\r"} {
 		var sb strings.Builder
